@@ -835,19 +835,26 @@ theorem zipOne_as_tar (fs : FS) (root : P) (mask : Nat) (e : Entry) :
     (zipOne fs root mask e).1 = fs ∨ ∃ e', (zipOne fs root mask e).1 = (tarOne fs root mask e').1 := by
   by_cases hsh : e.kind = .symlink ∧ e.short = true
   · exact Or.inl (zipOne_symlink_short_tree fs root mask e hsh.1 hsh.2)
-  · right
-    cases hk : e.kind with
-    | reg => exact ⟨e, by rw [zipOne_eq_tarOne fs root mask e (Or.inl hk)]⟩
-    | dir => exact ⟨e, by rw [zipOne_eq_tarOne fs root mask e (Or.inr (Or.inl hk))]⟩
+  · cases hk : e.kind with
+    | reg => exact Or.inr ⟨e, by rw [zipOne_eq_tarOne fs root mask e (Or.inl hk)]⟩
+    | dir => exact Or.inr ⟨e, by rw [zipOne_eq_tarOne fs root mask e (Or.inr (Or.inl hk))]⟩
     | symlink =>
       have hs : e.short = false := by
         cases h : e.short with
         | false => rfl
         | true => exact absurd ⟨hk, h⟩ hsh
-      exact ⟨e, by rw [zipOne_eq_tarOne fs root mask e (Or.inr (Or.inr ⟨hk, hs⟩))]⟩
-    | link => exact ⟨{ e with kind := .reg }, by simp [zipOne, tarOne, hk]; rfl⟩
-    | other => exact ⟨{ e with kind := .reg }, by simp [zipOne, tarOne, hk]; rfl⟩
-    | corrupt => exact ⟨{ e with kind := .reg }, by simp [zipOne, tarOne, hk]; rfl⟩
+      exact Or.inr ⟨e, by rw [zipOne_eq_tarOne fs root mask e (Or.inr (Or.inr ⟨hk, hs⟩))]⟩
+    | link => exact Or.inr ⟨{ e with kind := .reg }, by simp [zipOne, tarOne, hk]; rfl⟩
+    | other => exact Or.inr ⟨{ e with kind := .reg }, by simp [zipOne, tarOne, hk]; rfl⟩
+    | corrupt =>
+      left
+      unfold zipOne
+      simp only [hk]
+      split
+      · rfl
+      split
+      · rfl
+      · rfl
 
 theorem RInv.zipStep {fs : FS} {root : P} (hinv : RInv fs root) (hr : GoodPath root) (hroot : root ≠ [])
     (mask : Nat) (e : Entry) : RInv (zipOne fs root mask e).1 root := by
